@@ -246,3 +246,93 @@ class GlobalErrorEstimate(Contract):
 CONTRACTS += [GlobalErrorEstimate(n, o, t) for n in (1, 2, 3) for o, t in ((1, "1"), (2, "2"), (Inf(1), "inf"))]
 ASSUMPTIONS += ["get_global_error_estimate: vectors of length 1..3 (loop-free), norms 1/2/inf; sqrt is an uninterpreted function with its defining instances; the reference is the "
                 "zero vector or has no zero component (a component-wise relative error is undefined otherwise); the division by len**(1/norm) is the library's normalisation"]
+
+
+# --------------------------------------------------------------------------- total error: a sum of non-negative local errors is not negative
+from pyvc.values import ObjSeq  # noqa: E402
+from pyvc.book import Loop as _Loop  # noqa: E402
+from pyvc import lemmas as L  # noqa: E402
+
+RC_FILE = "sparseSpACE/RefinementContainer.py"
+I_, R_ = z3.IntSort(), z3.RealSort()
+
+
+def sum_nonneg_stmt(a, n):
+    j = z3.Int("snj")
+    return z3.Implies(z3.And(n >= 0, z3.ForAll([j], z3.Implies(z3.And(j >= 0, j < n), z3.Select(a, j) >= 0))), P.SUMR(a, 0, n) >= 0)
+
+
+def _sum_nonneg_lemma():
+    a = z3.Const("a", z3.ArraySort(I_, R_))
+    m, j = z3.Ints("m j")
+    ax = P.sum_axioms()
+    nn = lambda k: z3.ForAll([j], z3.Implies(z3.And(j >= 0, j < k), z3.Select(a, j) >= 0))  # noqa
+    return [(ax, P.SUMR(a, 0, 0) >= 0), (ax + [m >= 0, z3.Implies(nn(m), P.SUMR(a, 0, m) >= 0), nn(m + 1)], P.SUMR(a, 0, m + 1) >= 0)]
+
+
+class GetTotalError(Contract):
+    file, qualname = RC_FILE, "RefinementContainer.get_total_error"
+
+    def inputs(self, S):
+        n = S.int("n")
+        S.assume(n >= 0)
+        for ax in P.sum_axioms():
+            S.assume(ax, "def:Sum")
+        return {"self": Obj("RefinementContainer", dict(refinementObjects=ObjSeq("RefinementObject", n, dict(error=S.array("error", I_, R_)))))}
+
+    def pre(self, S, env):
+        o = env["self"].fields["refinementObjects"]
+        j = z3.Int("ej")
+        return [("local-errors-nonnegative", z3.ForAll([j], z3.Implies(z3.And(j >= 0, j < o.length), z3.Select(o.fields["error"], j) >= 0)))]
+
+    def result(self, S, env):
+        return S.real("total_error")
+
+    def inv(self, S, env, g):
+        from pyvc import values as Vv
+        o = S.ex.old["self"].fields["refinementObjects"]
+        return [("sum-so-far", Vv.to_z3(env["total_error"], True) == P.SUMR(o.fields["error"], 0, g["k"])),
+                ("errors-untouched", env["self"].fields["refinementObjects"].fields["error"] == o.fields["error"])]
+
+    @property
+    def loops(self):
+        return {0: _Loop(inv=lambda S, env, g: self.inv(S, env, g))}
+
+    def post(self, S, old, env, result):
+        from pyvc import values as Vv
+        o = old["self"].fields["refinementObjects"]
+        r = Vv.to_z3(result, True)
+        return [Cl("total-is-the-sum-of-the-local-errors", r == P.SUMR(o.fields["error"], 0, o.length)),
+                Cl("total-error-never-negative", r >= 0, prop=True, by=[("sum-nonneg", sum_nonneg_stmt(o.fields["error"], o.length))])]
+
+
+class MetaGetTotalError(Contract):
+    file, qualname = RC_FILE, "MetaRefinementContainer.get_total_error"
+
+    def __init__(self, ndim):
+        self.ndim = ndim
+        self.label = "MetaRefinementContainer.get_total_error[dims=%d]" % ndim
+
+    def inputs(self, S):
+        conts = []
+        for c in range(self.ndim):
+            n = S.int("n%d" % c)
+            S.assume(n >= 0)
+            conts.append(Obj("RefinementContainer", dict(refinementObjects=ObjSeq("RefinementObject", n, dict(error=S.array("error%d" % c, I_, R_))))))
+        return {"self": Obj("MetaRefinementContainer", dict(refinementContainers=Seq("list", conts)))}
+
+    def pre(self, S, env):
+        j = z3.Int("mej")
+        out = []
+        for c, cont in enumerate(env["self"].fields["refinementContainers"].items):
+            o = cont.fields["refinementObjects"]
+            out.append(("dim%d.local-errors-nonnegative" % c, z3.ForAll([j], z3.Implies(z3.And(j >= 0, j < o.length), z3.Select(o.fields["error"], j) >= 0))))
+        return out
+
+    def post(self, S, old, env, result):
+        from pyvc import values as Vv
+        return [Cl("total-error-never-negative", Vv.to_z3(result, True) >= 0, prop=True)]
+
+
+CONTRACTS += [GetTotalError(), MetaGetTotalError(1), MetaGetTotalError(2), MetaGetTotalError(3)]
+LEMMAS = list(globals().get("LEMMAS", [])) + [L.SmtLemma("sum-nonneg", _sum_nonneg_lemma, note="a ghost Sum of non-negative entries is non-negative (induction)")]
